@@ -800,6 +800,78 @@ static void generate(Plan &plan, uint64_t seed, int tier) {
         keys.push_back(ascii("abc"));
         keys.push_back(ascii("a"));
     }
+    if (cfg.chance(1, 90)) {
+        // large table: sizes around the powers of two from 128 to 1024 (page-sized item blocks, long partitions in
+        // Sort, many rehashes), holes in it, then the operations that rebuild or extend it. Keys are distinct texts
+        // with shared prefixes; bulk phases are checked once, at their end.
+        plan.cfg["scenario"] = 2;
+        int  j    = (int)cfg.below(3);
+        auto push = [&](int kind, const U32 &k1, int64_t a2, bool light) {
+            Op op;
+            op.kind = kind;
+            op.a[0] = j;
+            op.a[1] = (j + 1) % 3;
+            op.a[2] = a2;
+            op.a[3] = (int64_t)(1 + ops.below(60000));
+            op.a[4] = 1;
+            op.a[5] = light ? 1 : 0;
+            op.s.push_back(pack_units(k1));
+            op.s.push_back(pack_units(U32()));
+            plan.ops.push_back(op);
+        };
+        static const size_t around[] = {128, 256, 259, 300, 512, 600, 1024};
+        size_t              target   = around[cfg.below(7)];
+        size_t              n        = cfg.chance(1, 2) ? target : target - 3 + (size_t)cfg.below(7); // exactly full, or near it
+        std::vector<U32>    pool;
+        for (size_t i = 0; i < n + 40; i++) {
+            std::string t = (i % 3 == 0 ? "k" : i % 3 == 1 ? "key-" : "") + std::to_string((i * 7919) % 100003);
+            pool.push_back(ascii(t.c_str()));
+        }
+        bool presorted = cfg.chance(1, 3);
+        if (presorted) std::sort(pool.begin(), pool.begin() + (long)n);
+        if (cfg.chance(1, 2)) push(H_CTOR_SIZE, U32(), (int64_t)(1 + cfg.below(9)), false);
+        std::vector<U32> live;
+        for (size_t i = 0; i < n; i++) {
+            push(ops.chance(3, 4) ? H_INSERT : H_GET, pool[i], (int64_t)ops.below(8), i + 1 < n);
+            live.push_back(pool[i]);
+        }
+        size_t phases = 2 + (size_t)cfg.below(5);
+        // half of the histories start with the boundary every growth policy has: holes punched into a table, then a
+        // keyed write of a new key
+        bool boundary_first = cfg.chance(1, 2);
+        for (size_t ph = 0; ph < phases; ph++) {
+            uint64_t what = cfg.below(8);
+            if (boundary_first && ph < 2) what = ph;
+            switch (what) {
+                case 0: { // remove down to a power of two, or a random share
+                    size_t keep = cfg.chance(1, 2) ? (size_t(1) << (1 + cfg.below(9))) : (size_t)cfg.below(live.size() + 1);
+                    while (live.size() > keep && !live.empty()) {
+                        size_t at = (size_t)ops.below(live.size());
+                        push(H_REMOVE, live[at], (int64_t)ops.below(3), live.size() - 1 > keep);
+                        live.erase(live.begin() + (long)at);
+                    }
+                    break;
+                }
+                case 1: { // a few more keys: keyed writes into a full table with holes
+                    size_t m = 1 + (size_t)ops.below(4);
+                    for (size_t i = 0; i < m; i++) {
+                        const U32 &k = pool[n + (size_t)ops.below(40)];
+                        push(ops.chance(1, 2) ? H_INSERT : H_SUBSCRIPT, k, (int64_t)ops.below(8), false);
+                        if (std::find(live.begin(), live.end(), k) == live.end()) live.push_back(k);
+                    }
+                    break;
+                }
+                case 2: push(H_SORT, U32(), 1, false); break;
+                case 3: push(H_SORT, U32(), 0, false); break;
+                case 4: push(ops.chance(1, 2) ? H_COMPRESS : H_EXPECT, U32(), (int64_t)ops.below(6), false); break;
+                case 5: push(ops.chance(1, 2) ? H_MERGE_COPY : H_COPY_ASSIGN, U32(), 0, false); break;
+                case 6: push(H_RESIZE, U32(), (int64_t)ops.below(10), false); break;
+                default:
+                    for (size_t i = 0; i < 4 && !live.empty(); i++) push(H_LOOKUP, live[ops.below(live.size())], (int64_t)ops.below(3), false);
+            }
+        }
+        return;
+    }
     if (cfg.chance(1, 4)) {
         // phase-structured history on one table: membership changes in bulk, then the operations that rebuild or
         // reuse the chains right after them (faults placed after a membership change, not uniformly)
@@ -914,7 +986,9 @@ static void drive(Plan &plan, Ctx &cx, size_t &executed) {
         if (cx.failed || qsim::run_aborted()) break;
         w->exec(op);
         executed++;
-        if (!cx.failed) w->check();
+        // inside a bulk phase of a large-table scenario (a[5] set) the full comparison, which is linear in the table
+        // and the graveyard, waits for the end of the phase
+        if (!cx.failed && op.a[5] == 0) w->check();
     }
     w->teardown();
     delete w;
